@@ -157,6 +157,9 @@ def replay(ob, model, finding=None):
         return {"script": f"# replay of {ob.id}\nfrom replaylib.setpoints import main\nmain()\n",
                 "description": "power flows with enforce_q_lims whose limits become binding in successive rounds: reported q against what the "
                                "network takes from each gen"}
+    if ob.meta.get("part", "").startswith("shunt") and "[dc]" in ob.id:
+        return {"script": f"# replay of {ob.id}\nfrom replaylib.setpoints import main_shunt_dc\nmain_shunt_dc()\n",
+                "description": "DC power flow with a shunt and a ward at a generator bus with vm_pu = 1.05: nodal balance with the reported results"}
     if ob.meta.get("part", "").startswith("shunt"):
         return {"script": f"# replay of {ob.id}\nfrom replaylib.setpoints import main_shunt\nmain_shunt()\n",
                 "description": "power flow with shunts (steps, own / missing voltage rating, out of service), wards and an xward: voltage law of "
